@@ -4,9 +4,14 @@
 import IcingaModel.C18.Model
 import IcingaModel.C18.Spec
 
-deriving instance DecidableEq for Except
-
 namespace Icinga.C18
+
+/-- decidable equality of results (for the `decide`d examples; kept local to this namespace) -/
+instance instDecEqResult : DecidableEq (Except Err (List Obj))
+  | .ok x, .ok y => if h : x = y then isTrue (h ▸ rfl) else isFalse (fun h' => by cases h'; exact h rfl)
+  | .error x, .error y => if h : x = y then isTrue (h ▸ rfl) else isFalse (fun h' => by cases h'; exact h rfl)
+  | .ok _, .error _ => isFalse (fun h => by cases h)
+  | .error _, .ok _ => isFalse (fun h => by cases h)
 
 /-! ### wildcard language -/
 
